@@ -3,6 +3,7 @@
 package kit
 
 import (
+	"os"
 	"fmt"
 	"sort"
 	"strings"
@@ -194,6 +195,8 @@ func Census(allowThreads ...string) string {
 // Hex renders bytes compactly.
 func Hex(b []byte) string { return fmt.Sprintf("%x", b) }
 
+var debugEvents = os.Getenv("VH_DEBUG_EVENTS") != ""
+
 // Event is one step of a history.
 type Event struct {
 	Name string
@@ -208,6 +211,11 @@ func Hist(depth int, events func() []Event, settle func()) {
 		evs := events()
 		if len(evs) == 0 {
 			return
+		}
+		if debugEvents {
+			for i, e := range evs {
+				Tracef("  enabled %d %s", i, e.Name)
+			}
 		}
 		e := evs[ChooseFree(len(evs))]
 		Tracef("event %s", e.Name)
